@@ -39,6 +39,7 @@ import (
 	"path/filepath"
 	"regexp"
 	"runtime"
+	"runtime/debug"
 	"sort"
 	"strconv"
 	"strings"
@@ -157,6 +158,10 @@ func c22RunOne(id int, path, content string) (res c22Res) {
 
 // c22Child: frames `<id> <pathlen> <len>\n<path><content>` on stdin; one JSON line per input on fd 3.
 func c22Child() {
+	// Unbounded recursion ends in `fatal error: stack overflow` once the goroutine stack reaches the limit
+	// (default 1 GB, reached after several seconds of stack copying). A quarter of that is still far more
+	// than any legitimate recursion over inputs of at most a few hundred KB needs, and is detected sooner.
+	debug.SetMaxStack(256 << 20)
 	out := os.NewFile(3, "results")
 	if out == nil {
 		fmt.Fprintln(os.Stderr, "C22-child: fd 3 missing")
@@ -270,6 +275,9 @@ func (w *c22Worker) stop() {
 	w.cmd = nil
 }
 
+// first frame of a Go traceback that belongs to the repository under test
+var c22FrameRE = regexp.MustCompile(`(?m)^github\.com/inspirer/textmapper/([^\s(]+(?:\(\*[A-Za-z0-9_]+\))?[^\s(]*)\(`)
+
 var c22LogStamp = regexp.MustCompile(`^\d{4}/\d{2}/\d{2} \d{2}:\d{2}:\d{2}(\.\d+)? `)
 
 // run gives one input to the child and waits for its result (at most limit).
@@ -356,6 +364,9 @@ func (w *c22Worker) run(id int, path, content string, limit time.Duration) c22Re
 			}
 		}
 		res.Msg = c22FirstLine(res.Msg)
+		if m := c22FrameRE.FindStringSubmatch(text); m != nil {
+			res.Where = m[1]
+		}
 		return res
 	case <-timer.C:
 		w.stop()
@@ -720,7 +731,10 @@ func (g *c22Chaos) symref(allowArgs bool) string {
 	case x < 96:
 		return "error"
 	case x < 98:
-		return g.pick(g.sets)
+		if len(g.sets) > 0 {
+			return g.pick(g.sets)
+		}
+		return g.pick(g.terms)
 	default:
 		t := g.pick(g.terms)
 		if g.isIdent(t) {
@@ -741,7 +755,10 @@ func (g *c22Chaos) setExpr(depth int) string {
 		case 0:
 			return op + g.pick(g.nonterms)
 		case 1:
-			return g.pick(g.sets)
+			if len(g.sets) > 0 {
+				return g.pick(g.sets)
+			}
+			return g.pick(g.terms)
 		case 2:
 			return "eoi"
 		default:
@@ -782,8 +799,10 @@ func (g *c22Chaos) primary(depth int) string {
 		return "(" + g.rules(depth+1, 1+r.Intn(3)) + ")"
 	case x < 88:
 		sep := g.pick(g.terms)
-		if g.p(15) {
+		if !g.tame && g.p(12) {
 			sep = g.symref(false) + " " + g.pick(g.terms)
+		} else if g.p(8) {
+			sep += " " + g.pick(g.terms)
 		}
 		return "(" + g.seq(depth+1) + " separator " + sep + ")" + []string{"*", "+"}[r.Intn(2)]
 	case x < 97:
@@ -854,7 +873,7 @@ func (g *c22Chaos) rules(depth, n int) string {
 			sb.WriteString([]string{"[" + f + "] ", "[!" + f + "] ", "[" + f + " && !" + g.pick(g.flags) + "] ", "[" + f + " == true] ", "[" + f + " || " + g.pick(g.flags) + "] ", "[" + f + " != false] ", "[" + f + " == 5] "}[g.r.Intn(7)])
 		}
 		body := g.seq(depth)
-		if body == "" && g.p(50) {
+		if body == "" && (g.tame || g.p(50)) {
 			body = "%empty"
 		}
 		sb.WriteString(body)
@@ -862,7 +881,11 @@ func (g *c22Chaos) rules(depth, n int) string {
 			sb.WriteString(" %prec " + g.pick(g.terms))
 		}
 		if g.p(25) {
-			sb.WriteString(" -> " + []string{"NodeA", "NodeB", "NodeC", "Cat", "NodeA/flagX", "NodeB/flagX,flagY", "NodeA as Cat", "Cat as Cat"}[g.r.Intn(8)])
+			arrows := []string{"NodeA", "NodeB", "NodeC", "NodeD", "NodeA/flagX", "NodeB/flagX,flagY", "Cat", "NodeA as Cat", "Cat as Cat"}
+			if g.tame {
+				arrows = arrows[:6]
+			}
+			sb.WriteString(" -> " + arrows[g.r.Intn(len(arrows))])
 		}
 		rs = append(rs, sb.String())
 	}
@@ -883,8 +906,14 @@ func c22ChaosGrammar(r *rand.Rand, name string) string {
 	if g.lang == "cc" {
 		fmt.Fprintf(&sb, "namespace = %q\n", name)
 	}
+	goOnly := map[string]bool{"eventFields": true, "cancellable": true, "recursiveLookaheads": false}
+	notCC := map[string]bool{"eventAST": true, "genSelector": true, "tokenStream": true, "fixWhitespace": true}
+	ccOnly := map[string]bool{"flexMode": true, "trackReduces": true, "variantStackEntry": true}
 	for _, o := range []string{"eventBased", "eventFields", "eventAST", "genSelector", "optimizeTables", "defaultReduce", "minimizeDFA", "writeBison", "recursiveLookaheads", "cancellable",
 		"tokenStream", "fixWhitespace", "scanBytes", "caseInsensitive", "nonBacktracking", "noEmptyRules", "debugParser", "tokenLine", "tokenColumn", "aliasIncludesOptSuffix", "genParser", "flexMode", "trackReduces", "variantStackEntry"} {
+		if g.tame && (goOnly[o] && g.lang != "go" || notCC[o] && g.lang == "cc" || ccOnly[o] && g.lang != "cc" || o == "flexMode" || o == "genParser") {
+			continue
+		}
 		if g.p(12) {
 			fmt.Fprintf(&sb, "%s = %v\n", o, g.p(75))
 		}
@@ -905,7 +934,8 @@ func c22ChaosGrammar(r *rand.Rand, name string) string {
 		fmt.Fprintf(&sb, "optInstantiationSuffix = %q\n", []string{"_opt", "", "Opt", "opt"}[r.Intn(4)])
 	}
 	sb.WriteString("\n:: lexer\n\n")
-	if g.p(15) {
+	hasSC := g.p(15)
+	if hasSC {
 		sb.WriteString("%s st1, st2;\n%x st3;\n")
 	}
 	nt := 2 + r.Intn(4)
@@ -921,12 +951,19 @@ func c22ChaosGrammar(r *rand.Rand, name string) string {
 			typ = " {int}"
 		}
 		pre := ""
-		if g.p(6) {
+		if g.p(6) && (hasSC || !g.tame) {
 			pre = []string{"<st1> ", "<*> ", "<st1, st3> ", "<nope> "}[r.Intn(4)]
+			if g.tame && pre == "<nope> " {
+				pre = "<st2> "
+			}
 		}
 		fmt.Fprintf(&sb, "%s%s%s: /%s/", pre, tname, typ, ch)
 		if g.p(10) {
-			sb.WriteString([]string{" -1", " 2", " (space)", " (class)", " { $$ = 1 }", " (space)"}[r.Intn(6)])
+			attr := []string{" -1", " 2", " (space)", " (class)", " { $$ = 1 }", " (space)"}[r.Intn(6)]
+			if g.tame && (attr == " (class)" || attr == " (space)") {
+				attr = " 1"
+			}
+			sb.WriteString(attr)
 		}
 		sb.WriteString("\n")
 	}
@@ -947,7 +984,7 @@ func c22ChaosGrammar(r *rand.Rand, name string) string {
 	if g.p(10) {
 		sb.WriteString("eoi: /\\$/\n")
 	}
-	if g.p(10) {
+	if g.p(10) && (hasSC || !g.tame) {
 		sb.WriteString("<st3> {\n  'q': /q/\n}\n")
 	}
 
@@ -975,18 +1012,32 @@ func c22ChaosGrammar(r *rand.Rand, name string) string {
 			fmt.Fprintf(&sb, "%%%sflag %s%s;\n", mod, f, def)
 		}
 	}
-	g.sets = []string{"s0"}
+	if !g.tame {
+		g.sets = []string{"s0"}
+	}
 	if g.p(35) {
+		if g.p(50) {
+			g.sets = []string{"s0"} // visible to its own definition: recursive sets
+		}
 		fmt.Fprintf(&sb, "%%generate s0 = set(%s);\n", g.setExpr(0))
+		g.sets = []string{"s0"}
 	}
 	if g.p(10) {
 		fmt.Fprintf(&sb, "%%assert %s set(%s);\n", []string{"empty", "nonempty"}[r.Intn(2)], g.setExpr(0))
 	}
-	if g.p(85) {
+	for _, n := range g.nonterms {
+		if len(g.flags) > 0 && g.p(35) {
+			g.ntParam[n] = g.pick(g.flags)
+		}
+	}
+	if g.tame || g.p(85) {
 		var ins []string
 		for i, n := 0, 1+r.Intn(2); i < n; i++ {
 			in := g.pick(g.nonterms)
-			if g.p(8) {
+			for k := 0; k < 8 && g.tame && g.ntParam[in] != ""; k++ {
+				in = g.pick(g.nonterms)
+			}
+			if g.p(8) && !g.tame {
 				in = g.pick(g.terms)
 			}
 			if g.p(25) {
@@ -1012,11 +1063,6 @@ func c22ChaosGrammar(r *rand.Rand, name string) string {
 		fmt.Fprintf(&sb, "%%expect-rr %d;\n", r.Intn(3))
 	}
 	sb.WriteString("\n")
-	for _, n := range g.nonterms {
-		if len(g.flags) > 0 && g.p(35) {
-			g.ntParam[n] = g.pick(g.flags)
-		}
-	}
 	for _, n := range g.nonterms {
 		g.cur = n
 		head := n
@@ -1060,6 +1106,22 @@ func c22KnownCrashes(repo string) []*c22Known {
 	testTm, _ := os.ReadFile(filepath.Join(repo, "parsers/test/test.tm"))
 	lalrk := strings.Replace(string(testTm), "eventBased = true", "eventBased = true\noptimizeTables = true", 1)
 	return []*c22Known{
+		{
+			Token:   "[C22-recursive-set-instantiate]",
+			Witness: "language w(go);\n\n:: lexer\n\n'c': /c/\n\n:: parser\n\n%flag F;\n%generate s0 = set('c' | s0);\n%input N;\n\nN : 'c' ;\n",
+			What:    "compiler.Compile dies with `fatal error: stack overflow` (unbounded recursion in syntax.(*instantiator).doSet): a named token set that refers to itself, `%generate s0 = set('c' | s0);`, in a grammar with at least one template parameter (without one, Instantiate is skipped and the same grammar compiles)",
+			Match: func(res c22Res) bool {
+				return res.CrashKind == "runtime-fatal" && strings.Contains(res.Msg, "stack overflow") && strings.Contains(res.Where, "doSet")
+			},
+		},
+		{
+			Token:   "[C22-argrefs-stale-after-instantiate]",
+			Witness: "language w(go);\n\n:: lexer\n\n'a': /a/\n'b': /b/\n\n:: parser\n\n%flag F;\n%input S;\n\nU : 'a' ;\nS : X { } ;\nX : 'b' ;\n",
+			What:    "compiler.Compile panics (index out of range in syntax.(*Model).Rearrange): syntax.Instantiate renumbers the nonterminals (here it drops the unused U) but leaves the symbols recorded in the ArgRefs of semantic actions in the old numbering; any template parameter makes Instantiate run",
+			Match: func(res c22Res) bool {
+				return res.CrashKind == "panic" && strings.Contains(res.Msg, "index out of range") && strings.Contains(res.Where, "Rearrange")
+			},
+		},
 		{
 			Token:   "[C22-addtypes-minus-one]",
 			Witness: c22HeaderGo + "\n:: lexer\n\n'a': /a/\n'b': /b/\n\n:: parser\n\n%input N0;\n\nN0 : ('a' 'b'* { })+ ;\n",
@@ -1147,7 +1209,7 @@ func c22(c *Ctx) {
 	probe := &c22Worker{self: self}
 	known := c22KnownCrashes(repo)
 	for _, k := range known {
-		res := probe.run(-1, c22Path, k.Witness, 60*time.Second)
+		res := probe.run(-1, c22Path, k.Witness, 120*time.Second)
 		k.Active = res.CrashKind != "" && k.Match(res)
 		c.Extra["probe "+k.Token] = fmt.Sprintf("%s %s %s", res.Kind, res.CrashKind, res.Msg)
 		if k.Active {
@@ -1206,7 +1268,7 @@ func c22(c *Ctx) {
 	for _, s := range seeds {
 		switch {
 		case s.heavy:
-			mutants("mut-shipped-js", s, c.N(3, 14))
+			mutants("mut-shipped-js", s, c.N(2, 14))
 		case strings.Contains(s.name, "textmapper"):
 			mutants("mut-shipped", s, c.N(30, 300))
 		default:
@@ -1246,7 +1308,7 @@ func c22(c *Ctx) {
 		add(c22Input{Name: s.name, Kind: "feature", Text: text})
 		mutants("mut-feature", s, 4)
 	}
-	for i, n := 0, c.N(220, 2500); i < n; i++ {
+	for i, n := 0, c.N(180, 2500); i < n; i++ {
 		s := seed{fmt.Sprintf("chaos%d", i), c22ChaosGrammar(c.Rng, fmt.Sprintf("c%d", i)), false}
 		add(c22Input{Name: s.name, Kind: "chaos", Text: s.text})
 		mutants("mut-chaos", s, 1)
@@ -1519,8 +1581,10 @@ func c22MapErr(c *Ctx, in c22Input, res c22Res) {
 
 // c22Shrink: greedy delta debugging over lines, then over tokens; at most `budget` runs.
 func c22Shrink(w *c22Worker, text string, same func(c22Res) bool, budget int) string {
+	deadline := time.Now().Add(time.Duration(budget/2) * time.Second)
 	try := func(t string) bool {
-		if budget <= 0 {
+		if budget <= 0 || time.Now().After(deadline) {
+			budget = 0
 			return false
 		}
 		budget--
